@@ -51,7 +51,7 @@ class SysTarget:
         exp = self.expected(sb, case, cfg)
         if exp is None:
             return None                    # a conforming preprocessor rejects the program: outside the quantifier
-        if "missing" not in self.features and any(ev[0] == "missing-include" for p in exp for ev in exp[p][1]):
+        if "missing" not in self.features and any(ev[0].startswith("missing") for p in exp for ev in exp[p][1]):
             return None
         self._last_valid = True
         try:
